@@ -113,7 +113,7 @@ def build_harness(cmd_name, race=False, tags="verif"):
         cmd.append("-race")
     if os.environ.get("VERIF_COVER"):
         # coverage survey of the library under the harnesses (runner/cover_survey.py): GOCOVERDIR is inherited by the binaries
-        cmd += ["-cover", "-coverpkg=github.com/protolambda/zrnt/eth2/..."]
+        cmd += ["-cover", "-coverpkg=github.com/protolambda/zrnt/eth2/...,verif/harness/..."]
     cmd.append("./cmd/" + cmd_name)
     p = run(cmd, cwd=HARNESS_DIR, env=GO_ENV, timeout=1200)
     if p.returncode != 0:
